@@ -24,6 +24,9 @@ func genAll(env vh.Env, r *vh.Rand) []Case {
 	for i, n := 0, env.N(200, 15); i < n; i++ {
 		cases = append(cases, genCfgCase(r.Fork()))
 	}
+	for i, n := 0, env.N(3, 4); i < n; i++ {
+		cases = append(cases, genAmtoolCase(r.Fork()))
+	}
 	cases = append(cases, genSyntax(env, r)...)
 	return cases
 }
